@@ -21,6 +21,21 @@ def bitsf(u):
     return struct.unpack("<f", struct.pack("<I", u))[0]
 
 
+def _fragile_pairs():
+    """(point rate, sub-frames) pairs whose float32 ratio ANALOG:RATE / POINT:RATE lands just below the integer: a reader that truncates
+    instead of rounding sees one sub-frame too few.  Found by search, not hard-coded."""
+    out = []
+    for r in [23.976, 29.97, 59.94, 47.952, 47.95, 119.88, 239.76, 30.3, 7.7, 14.985, 11.988, 99.9, 33.3, 66.6, 0.7, 1.1, 12.3, 1.3, 2.7, 17.1, 71.93]:
+        for sub in range(2, 21):
+            a = f32(f32(r) * sub)
+            q = f32(a / f32(r))
+            if int(q) != sub and round(q) == sub:
+                out.append((r, sub))
+    return out
+
+
+FRAGILE = _fragile_pairs()
+
 SPECIAL = [0x00000000, 0x80000000, 0x00000001, 0x807fffff, 0x00800000, 0x7f7fffff, 0xff7fffff, 0x7f800000, 0xff800000,
            0x7fc00000, 0xffc00000, 0x7fa00001, 0xff800001, 0x7fffffff, 0x3f800000, 0xbf800000, 0x7f800001, 0x00400000]
 
@@ -157,6 +172,16 @@ def gen_case(seed, idx, big=False, force=None, ntsc_ok=True):
         sub_hdr = 0     # no analog information at all: the header carries 0 sub-frames
     else:
         sub_hdr = sub
+    if FRAGILE and idx % 25 == 3 and not empty_analog:
+        # a rate pair whose float ratio is a hair below the integer number of sub-frames (needs at least one channel to be observable)
+        prate, sub = FRAGILE[(idx // 25 + seed) % len(FRAGILE)]
+        arate = f32(f32(prate) * sub)
+        sub_hdr = sub
+        nch = max(nch, 1)
+        if nch * sub * nframes > 4000:
+            nframes = max(1, 4000 // (nch * sub))
+        ntsc = True
+        meta["variants"] = ["fragile_rate_ratio"]
     meta["rates"] = [prate, arate, sub]
     # ---------------- group ids
     ngroups_custom = r.choice([0, 0, 1, 2, 3, r.randint(0, 6)])
@@ -289,7 +314,7 @@ def gen_case(seed, idx, big=False, force=None, ntsc_ok=True):
         frames.append((pts, an))
     content = dict(npts=npts, nch=nch, sub=sub_hdr, first=first, nframes=nframes, rate_bits=fbits(prate), gap=r.choice([10, 0, 20]),
                    groups=groups, params=params, frames=frames, events=ev)
-    meta["variants"] = sorted(chosen)
+    meta["variants"] = sorted(chosen) + meta.get("variants", [])
     meta["shape"] = dict(npts=npts, nch=nch, sub=sub_hdr, nframes=nframes, groups=len(groups), params=len(params), first=first, labels=lv, ntsc=ntsc)
     meta["layout"] = {k: (v if not isinstance(v, list) else "explicit_shuffle") for k, v in L.items()}
     return content, L, meta
